@@ -1,33 +1,74 @@
 """C05 — a task sees exactly the data published by the tasks that causally precede it."""
 GEN = []
 MANIFEST = {
-    'technique': 'Lean 4 theorems over a model of context versioning and data flow + differential check against the '
-                 'real data_flow functions in all row orders + causal-publisher monitor',
+    'technique': 'Lean 4 theorems over a model of context versioning and data flow (single merges AND whole fork/join '
+                 'publish histories, arbitrarily nested values) + differential check against the real data_flow '
+                 'functions in all row orders and over whole histories + leaf-granular causal-publisher monitor',
     'text': 'Model Mistral.Ctx = get_in_context_with_versions, evaluate_task_outbound_context, merge_context_by_version '
-            '(_merge_ctx/_merge_versions), evaluate_upstream_context, ContextView lookup. Theorems: outbound_lookup, '
-            'merge_value_rule, stale_copy_never_wins, newer_value_wins, merge_order_independent_partial, '
-            'later_publish_wins_partial (a task own publish wins over the context it inherited in either merge order), '
-            'later_publish_wins_full_fails (witness of known finding G: republishing with another shape), '
-            'merged_version_is_max, lookup_priority, lookup_missing. Tie: stream ctx = the REAL functions on generated '
-            'publish histories over fork/join DAGs, every inbound context in ALL row orders (joins <=4 parents) vs the '
-            'model. Monitors (statement): a join sees the value of the causally latest publisher; order independence '
-            'when no concurrent publishers; stored inbound contexts never modified by evaluation. "Evaluation never '
-            'modifies stored contexts" is vacuous in Lean (immutable values): monitor only. Stream flow (engine '
-            'level): generated programs on the REAL engine under random schedules; the stored inbound context of '
-            'every completed task execution is recomputed by the Lean model from the real rows of the executions '
-            'that triggered it (outbound of each, merged by version) and compared; monitors on the real rows: the '
-            'visible value is the causally latest publisher\'s, else the workflow input; stored contexts of '
-            'completed tasks never change afterwards.',
-    'note': 'md5 version-key hashing modelled as identity; YAQL/Jinja evaluation not modelled; flat (non-dict) values '
-            'in the proved partial theorems; dict-valued variables covered by correspondence + monitor.',
+            '(_merge_ctx/_merge_versions), evaluate_upstream_context, ContextView lookup; Mistral.Hist = a whole run of '
+            'a fork/join DAG (inbound = fold of the version merge over the parents\' outbound contexts in the listed '
+            'row order, outbound = inbound + publish with version bump, causal ancestors). NESTED VALUES as the code '
+            'treats them (one version per leaf path, recursive merge of dicts, a non-dict replaces / gets replaced). '
+            'Single merge (Props.C05): merge_value_rule / merge_node_rule / merge_dict_rule (the structural recursion), '
+            'merge_leaf_rule (closed form along a path), stale_copy_never_wins and newer_value_wins at any depth '
+            '(hypothesis: no non-dict above the path on the other side), merged_version_is_max, '
+            'merge_order_independent_partial (commutativity up to ties), merge_associative (no tie hypothesis), '
+            'later_publish_wins_partial (every leaf of a task\'s own publication wins over the context it inherited '
+            'in either merge order; excluded input explicit: the inherited value holds a scalar where the new one '
+            'has a dict), later_publish_wins_full_fails (witness of known finding G), outbound_lookup, lookup_priority, '
+            'lookup_missing. WHOLE HISTORIES (Props.C05Causal, induction over the topological task list, parents '
+            'folded in any listed order, hypothesis StableHist = shape-stable republication of the leaf path, '
+            'decidable): inv_reachable, stale_copy_never_visible (for every DAG, task and leaf path the visible '
+            'leaf is the publication of a causal ancestor that is MAXIMAL among the publishers: a stale copy never '
+            'wins), latest_publisher_visible (if the publishers among the ancestors have a latest one the visible '
+            'leaf is exactly its publication), unpublished_falls_back (else the variable is absent from the '
+            'inbound context and the ContextView lookup goes on to environment / vars / input), '
+            'visible_order_independent (same DAG, parents listed in another order: same visible leaf). WEAKER HYPOTHESIS '
+            '(Props.C05Drop; StablePub2 = a publication may republish the variable WHOLESALE WITHOUT the leaf, '
+            'DropsLow = a task that drops the leaf has seen at most one generation of it; both decidable): '
+            'inv_reachable_dropping, stale_copy_never_visible_dropping, latest_publisher_visible_dropping (the '
+            'latest publisher\'s leaf, or no leaf at all and then a causal ancestor dropped it), and '
+            'drop_after_two_generations_fails (without DropsLow the statement is FALSE of the code: a variant of '
+            'known finding G, replayed on the real functions by the hist stream), dropsLow_from_dag and '
+            'stale_copy_never_visible_dag (the same with hypotheses on the history alone). Ties: stream '
+            'ctx = the REAL functions on generated publish histories over fork/join DAGs, every inbound context in '
+            'ALL row orders (joins <=4 parents) vs the model; stream hist = the Lean run of the WHOLE history vs '
+            'the real inbound/outbound context of every task + the theorems\' hypothesis StableHist evaluated by '
+            'Lean vs read off the history; stream flow (engine level) = generated programs and the same publish-'
+            'history motifs as real workflows on the REAL engine under random schedules, every stored inbound '
+            'context recomputed by the model from the real rows. Monitors (statement, independent of the model): '
+            'LEAF-granular causal monitor on the inbound context of every task in every row order (function '
+            'level) and of every completed task execution (engine level): the visible value of a leaf path is '
+            'that of a maximal publisher of the leaf, never a copy of a publisher that another publisher '
+            'causally follows, and the unique latest one\'s when there is one; not visible only below a wholesale '
+            'republication nothing follows; whole-variable latest-publisher and order-independence monitors; '
+            'stored contexts never modified by evaluation / never changed after completion. "Evaluation never '
+            'modifies stored contexts" is vacuous in Lean (immutable values): monitor only.',
+    'note': 'md5 version-key hashing modelled as identity; YAQL/Jinja evaluation not modelled; the whole-history '
+            'theorems assume shape-stable republication of the leaf path (StableHist, decidable; evaluated by Lean '
+            'on every generated history): republication with another shape is known finding G '
+            '(later_publish_wins_full_fails), covered by correspondence + monitor; the theorems are about the '
+            'data-flow model run (Mistral.Hist), which is tied to the real functions per history (stream hist) and '
+            'to the engine per task execution (stream flow), not to the engine model L5. DropsLow is a condition on the '
+            'model run (inbound version of the dropping task <= 1), evaluated by Lean and read off the real '
+            'contexts by the hist stream; dropsLow_from_dag proves it from a condition on the DAG alone (no two publishers '
+            'of the leaf, one following the other, above a dropping task: the version of a path counts generations of '
+            'its publishers, Lemmas/HistChain), which is also what the monitor uses to delimit finding G.',
 }
-RULE = ('stream ctx: generated publish histories over fork/join DAGs (scalar, list and nested dict values), every '
+RULE = ('stream ctx: generated publish histories over fork/join DAGs (50% random DAGs with several roots, scalar / '
+        'list / nested dict values, leaf values unique per publisher, parents listed in random order; 28% motif '
+        '"nested dict before a fork, one branch republishes a leaf, a sibling republishes the dict wholesale without '
+        'it (or shape-stable), others inherit, 2-4 chained joins"; 22% motif ">=3 contexts merged whose base never '
+        'saw the variable, published twice along one branch, older copy in a sibling, independent roots"), every '
         'inbound context computed by the real data_flow functions in ALL row orders (joins with <=4 parents) and '
         'compared with Mistral.Ctx; non-trivial = a join (>=2 parents) or a non-empty publish; distinct = distinct '
-        'function inputs. Stream flow: generated single-activation programs on the real engine; one evaluation per '
-        'completed task execution with >=1 triggering execution; non-trivial = a join or a publishing task')
+        'function inputs. Stream hist: one evaluation per task of every history (Lean run of the whole history vs '
+        'real contexts) and per leaf path (StableHist); non-trivial = join or publishing task, every path. Stream '
+        'flow: generated single-activation programs (55%) and publish-history motifs rendered as workflows (45%) on '
+        'the real engine; one evaluation per completed task execution with >=1 triggering execution; non-trivial = '
+        'a join or a publishing task')
 TRUSTED = ['python dict order irrelevant (canonicalised by sorting keys)']
-LEAN_MODULES = ['Mistral.Props.C05']
+LEAN_MODULES = ['Mistral.Props.C05', 'Mistral.Props.C05Causal', 'Mistral.Props.C05Drop']
 
 
 def correspond(ctx):
@@ -37,12 +78,14 @@ def correspond(ctx):
 
 
 def search(ctx):
-    # the monitors of both streams are the oracle; a wider sample of histories
+    # the statement monitors of both streams are the oracle (leaf-granular: they also decide histories with
+    # concurrent publishers of one variable and wholesale republication); a wider sample of histories, half
+    # of them the fork/join motifs in which a wrong version bookkeeping shows
     from vlib import par
     par.run_parallel(ctx, 'harness.ctx_stream', 'run_chunk', [{'n_histories': 1500}] * 14)
     if ctx.violations:
         return
-    # engine level: the causal-publisher monitor on the real rows of generated programs under random schedules
+    # engine level: the same monitor on the real rows of generated programs under random schedules
     par.run_parallel(ctx, 'harness.flow_stream', 'run_chunk', [{'n_programs': 120}] * 14)
 
 
@@ -51,6 +94,6 @@ def replay(ctx, rep):
     if rep.get('stream') == 'flow':
         from harness import flow_stream
         flow_stream.replay(ctx, rep)
-    elif 'history' in rep:
+    elif 'history' in rep or rep.get('lookup'):
         from harness import ctx_stream
         ctx_stream.replay(ctx, rep)
